@@ -31,7 +31,6 @@ Trace == ndJsonDeserialize("trace.ndjson")
 Vecs  == ndJsonDeserialize("vectors.ndjson")
 
 TraceKinds == {"CALL", "CALLCODE", "DELEGATECALL", "STATICCALL"}
-TraceMethods == LET s == JsonDeserialize("methods.json") IN {s[i] : i \in DOMAIN s}
 
 VARIABLES l, nbad, ndev, cls
 tvars == <<path, phase, exec, outcome, dirty, nlogs, l, nbad, ndev, cls>>
@@ -40,7 +39,7 @@ Ev == Trace[l]
 Bump(f, k) == [x \in (DOMAIN f) \cup {k} |-> IF x = k THEN (IF k \in DOMAIN f THEN f[k] ELSE 0) + 1 ELSE f[x]]
 OK == <<"ok", "">>
 
-MethodOf(e) == CHOOSE m \in TraceMethods : m.cpc = e.cpc /\ m.name = e.method
+MethodOf(e) == CHOOSE m \in Methods : m.cpc = e.cpc /\ m.name = e.method
 Key(v) == [path |-> v.path, cpc |-> v.cpc, method |-> v.method]
 
 (***************************************************************************)
